@@ -41,7 +41,7 @@ TStep ==
            row == RowClauses(e, n + 1)
            (* the growth-sign law is exact only for a table computed at the current temperature; with a table that is older (but
               must still be within maxTempChange, C13) only classes further than 10 % from the critical radius are judged *)
-           row1 == IF binary /\ stale THEN row \ {"C12:growth-sign-vs-Rcrit"} ELSE row \ {"C12:growth-sign-vs-Rcrit(10%-band)"}
+           row1 == IF binary /\ stale THEN row \ {"C12:growth-sign-vs-Rcrit"} ELSE row      \* (the band clause is the coarser statement: kept as a finding of its own)
        IN  /\ fails' = Add(row1 \cup c13, e.n)
            /\ tabT' = tab1
            /\ dTemp' = IF binary /\ euler THEN dT1 ELSE e.dTemp
